@@ -373,5 +373,128 @@ class DeriveTask(CoreTask):
             self.finish(res, ctx, obls)
 
 
+uri_normalize = z3.Function("uri_normalize", smt.S, smt.S)       # urlsplit(u).geturl()   (urllib, assumed; shared with the resolver tasks)
+
+
+class SplitV:
+    def __init__(self, t):
+        self.t = t
+
+
+class DictIter:
+    def __init__(self, d):
+        self.d = d
+
+
+class URIDictTask(CoreTask):
+    """URIDict (C02, C15, C20): every access goes through normalize, and normalize is urlsplit(uri).geturl()"""
+    def __init__(self, root, timeout_ms=10000):
+        CoreTask.__init__(self, root, 7, "uridict", timeout_ms)
+        self.name = "uridict:methods"
+        self.weight = 1
+
+    def cache_key(self):
+        from pyvc import driver
+        return "uridict|%s|%s" % (self.timeout_ms, driver.dep_hash(self.root, modules=("_utils",)))
+
+    def _run_uridict(self, res):
+        res["function"] = "_utils:URIDict.{normalize,__getitem__,__setitem__,__delitem__,__iter__,__len__}"
+        hashes = ""
+        dlen = z3.Function("dict_len", MapSort, smt.I)
+        for meth in ("normalize", "__getitem__", "__setitem__", "__delitem__", "__iter__", "__len__"):
+            repo = extract.Repo(self.root)
+            unit = repo.unit("_utils:URIDict.%s" % meth)
+            hashes += unit.source_hash()
+            ctx = Ctx(repo, contracts={}, config={})
+            dict_hooks(ctx)
+            base_builtin, base_method, base_getattr = ctx.config["builtin_hook"], ctx.config["method_hook"], ctx.config["getattr_hook"]
+            st = State()
+            st.unit = unit
+            m0 = z3.Const("store0", MapSort)
+            st.ghost["dcontent"] = {-1: m0}
+            store = DictObj(-1)
+            me = ClassObj("uridict", {"store": store})
+            uri = SV(z3.Const("uri", V))
+            st.pc.append(kind(uri.t) == K_STR)
+
+            def builtin_hook(I, s, name, a, k, node):
+                if name == "urllib.parse.urlsplit" and len(a) == 1 and isinstance(a[0], (SV, SStr)):
+                    return [(s, SplitV(a[0].t if isinstance(a[0], SStr) else sval(a[0].t)))]
+                if name == "iter" and isinstance(a[0], DictObj):
+                    return [(s, DictIter(a[0]))]
+                if name == "len" and isinstance(a[0], DictObj):
+                    return [(s, SInt(dlen(content(s, a[0]))))]
+                return base_builtin(I, s, name, a, k, node)
+
+            def getattr_hook(I, s, obj, attr):
+                if isinstance(obj, SplitV):
+                    return [(s, BoundMethod(obj, attr))]
+                if isinstance(obj, ClassObj) and obj.name == "uridict" and ("_utils:URIDict.%s" % attr) in repo.units:
+                    return [(s, BoundMethod(obj, attr))]
+                return base_getattr(I, s, obj, attr)
+
+            def method_hook(I, s, obj, name, a, k, node):
+                if isinstance(obj, SplitV) and name == "geturl" and not a:
+                    return [(s, SStr(uri_normalize(obj.t)))]
+                if isinstance(obj, ClassObj) and obj.name == "uridict":
+                    return I.call_func(s, FuncRef("_utils:URIDict.%s" % name), [obj] + list(a), k, node)
+                return base_method(I, s, obj, name, a, k, node)
+
+            def delitem_hook(I, s, obj, key):
+                if not isinstance(obj, DictObj):
+                    return None
+                kt = key.t if isinstance(key, SStr) else sval(key.t)
+                m = content(s, obj)
+                out = []
+                for s2, w in branch(I.ctx, s, [(m[kt] != 0, "ok"), (m[kt] == 0, "missing")]):
+                    if w == "ok":
+                        out.append((set_content(s2, obj, z3.Store(content(s2, obj), kt, 0)), ("next", None)))
+                    else:
+                        out.append((s2, ("raise", ExcVal("KeyError", {}, origin="del dict[]"))))
+                return out
+            ctx.config.update(builtin_hook=builtin_hook, getattr_hook=getattr_hook, method_hook=method_hook, delitem_hook=delitem_hook)
+            I = Interp(ctx)
+            value = Ident("value")
+            st.pc.append(value.t != 0)
+            args = {"normalize": [me, uri], "__getitem__": [me, uri], "__setitem__": [me, uri, value], "__delitem__": [me, uri], "__iter__": [me], "__len__": [me]}[meth]
+            outs = I.run_unit(unit, st, args, {})
+            res["paths"] += len(outs)
+            obls = list(ctx.obligations)
+            key = uri_normalize(sval(uri.t))
+            for n, (s, ctl) in enumerate(outs):
+                nm = "%s/F/%s#%d" % (self.name, meth, n + 1)
+                unchanged = content(s, store) == m0
+                if meth == "normalize":
+                    ok = ctl[0] == "return" and isinstance(ctl[1], SStr)
+                    obls.append(core.Obligation(nm, "F", s.pc, (ctl[1].t == key) if ok else z3.BoolVal(False), note="normalize(uri) is urlsplit(uri).geturl()"))
+                elif meth == "__getitem__":
+                    if ctl[0] == "raise":
+                        obls.append(core.Obligation(nm, "F", s.pc, z3.And(z3.BoolVal(ctl[1].cls == "KeyError"), m0[key] == 0, unchanged), note="KeyError iff the normalised key is absent"))
+                    else:
+                        r = ctl[1]
+                        obls.append(core.Obligation(nm, "F", s.pc, z3.And(r.t == m0[key], m0[key] != 0, unchanged) if isinstance(r, Ident) else z3.BoolVal(False),
+                                                    note="d[uri] is the value stored under the normalised key"))
+                elif meth == "__setitem__":
+                    obls.append(core.Obligation(nm, "F", s.pc, (content(s, store) == z3.Store(m0, key, value.t)) if ctl[0] == "return" else z3.BoolVal(False),
+                                                note="d[uri] = v stores v under the normalised key and changes nothing else"))
+                elif meth == "__delitem__":
+                    if ctl[0] == "raise":
+                        obls.append(core.Obligation(nm, "F", s.pc, z3.And(z3.BoolVal(ctl[1].cls == "KeyError"), m0[key] == 0, unchanged), note="KeyError iff the normalised key is absent"))
+                    else:
+                        obls.append(core.Obligation(nm, "F", s.pc, z3.And(m0[key] != 0, content(s, store) == z3.Store(m0, key, 0)), note="del d[uri] removes exactly the normalised key"))
+                elif meth == "__iter__":
+                    r = ctl[1] if ctl[0] == "return" else None
+                    obls.append(core.Obligation(nm, "F", s.pc, z3.And(z3.BoolVal(isinstance(r, DictIter) and r.d.ident == -1), unchanged), note="iteration is over the stored (normalised) keys"))
+                else:
+                    r = ctl[1] if ctl[0] == "return" else None
+                    obls.append(core.Obligation(nm, "F", s.pc, z3.And(r.t == dlen(m0), unchanged) if isinstance(r, SInt) else z3.BoolVal(False), note="len is the number of stored keys"))
+            self.finish(res, ctx, obls)
+        res["source_hash"] = hashes
+
+
+def uridict_tasks(root, timeout_ms=10000):
+    return [URIDictTask(root, timeout_ms)]
+
+
 def derive_tasks(root, timeout_ms=10000):
     return [DeriveTask(root, w, timeout_ms) for w in ("extend", "fc_init", "fc_checks")]
